@@ -1,9 +1,9 @@
 CONSTANTS
     Chans = {1, 2}
     MaxCalls = 1
-    SrvBudget = 2
-    Ops = {"listen", "publish"}
-    SrvKinds = {"ack", "blocked"}
+    SrvBudget = 1
+    Ops = {"declare", "publish"}
+    SrvKinds = {"connclose", "chclose"}
     Faults = {}
     ClientClose = TRUE
     Bug = {}
